@@ -48,7 +48,70 @@ type FaultDB struct {
 	failBegin    bool
 	failCommit   bool
 	failRollback bool
+	flavour      ErrFlavour
 }
+
+// ErrFlavour is the identity of the error a failing Begin/Commit/Rollback reports: a fresh
+// harness error (the default), or one of the well-known values that filters and "acceptable
+// error" lists tend to know about, bare or wrapped.  A failure stays a failure whatever its
+// error value is.
+type ErrFlavour int
+
+const (
+	FlavInjected ErrFlavour = iota
+	FlavTxDone
+	FlavNoRows
+	FlavConnDone
+	FlavCanceled
+	FlavDeadline
+	FlavEOF
+	FlavWrappedInjected
+	FlavWrappedTxDone
+	flavCount
+)
+
+var flavNames = [...]string{"injected", "sql.ErrTxDone", "sql.ErrNoRows", "sql.ErrConnDone", "context.Canceled",
+	"context.DeadlineExceeded", "io.EOF", "wrapped(injected)", "wrapped(sql.ErrTxDone)"}
+
+func (f ErrFlavour) String() string { return flavNames[f] }
+
+// SetFlavour chooses the error identity for the faults of the next transaction.
+func (d *FaultDB) SetFlavour(f ErrFlavour) {
+	d.mu.Lock()
+	d.flavour = f
+	d.mu.Unlock()
+}
+
+func (d *FaultDB) flavoured(site string) error {
+	switch d.flavour {
+	case FlavTxDone:
+		return sql.ErrTxDone
+	case FlavNoRows:
+		return sql.ErrNoRows
+	case FlavConnDone:
+		return sql.ErrConnDone
+	case FlavCanceled:
+		return context.Canceled
+	case FlavDeadline:
+		return context.DeadlineExceeded
+	case FlavEOF:
+		return io.EOF
+	case FlavWrappedInjected:
+		return wrapErr{"driver: ", InjErr{d.Name + ":" + site}}
+	case FlavWrappedTxDone:
+		return wrapErr{"driver " + site + ": ", sql.ErrTxDone}
+	}
+	return InjErr{d.Name + ":" + site}
+}
+
+// wrapErr is a comparable wrapper (so that the same fault yields equal values on every call).
+type wrapErr struct {
+	prefix string
+	inner  error
+}
+
+func (w wrapErr) Error() string { return w.prefix + w.inner.Error() }
+func (w wrapErr) Unwrap() error { return w.inner }
 
 var dbSeq atomic.Int64
 
@@ -65,9 +128,9 @@ func (d *FaultDB) Arm(connect, begin, commit, rollback bool) {
 }
 
 func (d *FaultDB) ErrConnect() error  { return InjErr{d.Name + ":connect"} }
-func (d *FaultDB) ErrBegin() error    { return InjErr{d.Name + ":begin"} }
-func (d *FaultDB) ErrCommit() error   { return InjErr{d.Name + ":commit"} }
-func (d *FaultDB) ErrRollback() error { return InjErr{d.Name + ":rollback"} }
+func (d *FaultDB) ErrBegin() error    { return d.flavoured("begin") }
+func (d *FaultDB) ErrCommit() error   { return d.flavoured("commit") }
+func (d *FaultDB) ErrRollback() error { return d.flavoured("rollback") }
 func (d *FaultDB) ErrStmt(q string) error {
 	return InjErr{d.Name + ":stmt:" + q}
 }
@@ -368,6 +431,8 @@ type Plan struct {
 	End          End
 	CommitFail   bool
 	RollbackFail bool
+	// Flavour: identity of the error reported by a failing begin/commit/rollback
+	Flavour ErrFlavour
 	// CancelAfter >= 0 (TransactCtx only): the body cancels the context after that many
 	// statements (0: the context is cancelled before TransactCtx is called).
 	CancelAfter int
@@ -391,6 +456,9 @@ func (p Plan) String() string {
 		}
 	}
 	fmt.Fprintf(&b, "] end=%s commit=%s rollback=%s", p.End, okfail(p.CommitFail), okfail(p.RollbackFail))
+	if p.Flavour != FlavInjected {
+		fmt.Fprintf(&b, " fault-error=%s", p.Flavour)
+	}
 	if p.CancelAfter >= 0 {
 		fmt.Fprintf(&b, " cancel-ctx-after=%d", p.CancelAfter)
 	}
@@ -513,6 +581,9 @@ func GenPlan(t *rapid.T, maxStmts int, first bool) Plan {
 	}
 	p.CommitFail = rapid.IntRange(0, 3).Draw(t, "commitFault") == 3
 	p.RollbackFail = rapid.IntRange(0, 3).Draw(t, "rollbackFault") == 3
+	if (p.CommitFail || p.RollbackFail || p.Begin == BeginFails) && rapid.Bool().Draw(t, "flavoured") {
+		p.Flavour = ErrFlavour(rapid.IntRange(1, int(flavCount)-1).Draw(t, "faultError"))
+	}
 	p.CancelAfter = -1
 	if p.Ctx && rapid.IntRange(0, 11).Draw(t, "cancelVariant") == 11 {
 		p.CancelAfter = rapid.IntRange(0, n).Draw(t, "cancelAfter")
@@ -627,6 +698,7 @@ type panicStruct struct {
 // what was observed.  d's log must be empty (Cut) before the call.
 func Run(sub Subject, nest NestFn, d *FaultDB, p Plan) (out Outcome) {
 	d.Arm(p.Begin == BeginConnectFail, p.Begin == BeginFails, p.CommitFail, p.RollbackFail)
+	d.SetFlavour(p.Flavour)
 	ctx, cancel := context.WithCancel(context.Background())
 	defer cancel()
 	if p.CancelAfter == 0 {
